@@ -613,6 +613,30 @@ pub fn gen(prop: &str, tier: &str, seed: u64) -> Vec<String> {
             }
         }
         "C20" => {
+            // every method of every type family (bytes, UTF-8, typed, UTF-8 typed, platform, UTF-8
+            // platform), compared between the two builds only (`tx` has no model counterpart)
+            let args: Vec<&[u8]> = vec![b"", b"a", b"..\\b", b"/x", b"a.b", "é".as_bytes()];
+            for win in [false, true] {
+                let mut d = if win { dom_win_small("quick", seed) } else { dom_unix_small("quick", seed) };
+                d.extend(utf8_dom("quick", seed).into_iter().step_by(41));
+                let d = dedup_keep_order(d);
+                for (i, s) in d.iter().enumerate() {
+                    if !t && i % 4 != 0 {
+                        continue;
+                    }
+                    for (j, a) in args.iter().enumerate() {
+                        if !t && (i / 4 + j) % 3 != 0 && j != 0 {
+                            continue;
+                        }
+                        for fam in ["b", "8", "t", "t8", "p", "p8"] {
+                            if win && fam.starts_with('p') {
+                                continue;
+                            }
+                            out.push(format!("tx {} {} {} {}", fam, e(win), hex(s), hex(a)));
+                        }
+                    }
+                }
+            }
             // a slice of every other property's quick domain; both builds run all of it
             for p in ["C01", "C02", "C03", "C04", "C05", "C06", "C07", "C08", "C09", "C10", "C11", "C12", "C13", "C14", "C15", "C16", "C17"] {
                 let v = gen(p, "quick", seed);
